@@ -350,7 +350,7 @@ func checkC07(c *Ctx, r *Report) {
 				_ = okDom // (an earlier version required the mismatch return to lie on the satisfiable side of SliceSize; the property asks for the opposite order: see below)
 			})
 		}
-		r.Floor("C07.R5", nMis, 2, "If-Range mismatch returns")
+		r.Floor("C07.R5", nMis, 1, "If-Range mismatch returns")
 		// If-Range comes first: "an If-Range that does not match yields the full 200" holds for every Range, also one
 		// that does not fit the stored body — a 416 is written only after the If-Range validator was looked at
 		// (in this function or in the helper it was moved to)
